@@ -195,6 +195,14 @@ class JsonDocument(HierDictDocument):
         except JSONDecodeError as e:
             raise Fault('Client.JsonDecodeError', repr(e))
 
+        except (UnicodeError, LookupError) as e:
+            # not text in the announced charset, or not a charset at all
+            raise Fault('Client.JsonDecodeError', repr(e))
+
+        except RuntimeError as e:
+            # nested deeper than the interpreter's recursion limit
+            raise Fault('Client.JsonDecodeError', repr(e))
+
     def create_out_string(self, ctx, out_string_encoding='utf8'):
         """Sets ``ctx.out_string`` using ``ctx.out_document``."""
         if out_string_encoding is None:
